@@ -88,6 +88,23 @@ CLAIMS = {
                 'clamped to boundary - 1. Sample counts and ranges are arithmetic (value clauses).',
         'note': 'Not decided: FlyClient sample-count bound, samples strictly inside (start, boundary), f64 arithmetic.',
     },
+    'C03': {
+        'technique': 'static analysis: control-dependence of a sentinel write on a record lookup, sort/iteration order, writer/reader layout agreement, who-may-call over compiler MIR',
+        'text': 'Decides structural necessary conditions of index == chain: a TxHash record is written with the placeholder tx_index only '
+                'after consulting the existing record (the stored index addresses cell keys on spend/rollback); matched blocks are indexed in '
+                'block-number order and script numbers rise only after the whole batch; every key/value reader slices at the offsets the '
+                'writer produces; only the synchronizer (and set_scripts for genesis) indexes blocks. The equality of index and chain over '
+                'all histories is a value clause and is NOT decided.',
+        'note': 'Not decided: index == chain over generated histories, script sets and RPC interleavings (the main clause).',
+    },
+    'C13': {
+        'technique': 'static analysis: writer/reader byte-layout agreement, sibling agreement of filter comparison signatures, snapshot-only reads, statement-guard flow over compiler MIR',
+        'text': 'Decides that the three queries slice keys and stored transactions at the offsets written by append_key / Value::Transaction; '
+                'that get_cells_capacity applies exactly the filter comparisons of get_cells and the grouped/ungrouped transaction branches the '
+                'same half-open block range; that all reads go through one snapshot; that limit == 0 is rejected and the cursor entry is skipped '
+                'iff a cursor was given. Exactly-once pagination, order reversal, grouping and the capacity sum are value clauses, not decided.',
+        'note': 'Not decided: pagination exactness, desc = reverse(asc), grouped = group(ungrouped), capacity = sum over cells.',
+    },
 }
 
 _PENDING = 'check not built yet in this round (planned in DESIGN.md §5); not claimed until its rules run on the tree'
